@@ -226,8 +226,8 @@ func C04(c *core.Ctx) {
 		"filters, FAR/QER/PDR updates, flows added and removed, association release, agent kill + restart against the populated switch, random slice id / "+
 		"QFI->TC map / default TC) executed against the real agent process and the harness' P4Runtime server; every step's switch state judged by "+
 		"Up4Image!TablesAreImage; in addition (GEN) TLC enumerates from spec/Up4Script.tla every behaviour of 4 (thorough: 5) operations over {establish A, establish B, A forwards to gNB 0 / gNB 1 / buffers / drops, "+
-		"A loses a flow, A's QER is updated, B moves to gNB 1, delete A, delete B, release A's association} for two sessions of different associations that share gNB and application filters "+
-		"(629 / 4 849 scripts) and the harness replays each into the real agent, from the empty state and followed by the deletion of what is left; evaluations = script steps; distinct_nontrivial = accepted session requests")
+		"A loses a flow, A loses its downlink PDRs, A's QER is updated, B moves to gNB 1, delete A, delete B, release A's association} for two sessions of different associations that share gNB and application filters "+
+		"(725 / 5 645 scripts) and the harness replays each into the real agent, from the empty state and followed by the deletion of what is left; evaluations = script steps; distinct_nontrivial = accepted session requests")
 
 	// bounded-exhaustive part: every applicable sequence of 4 (thorough: 5) operations over two sessions of different
 	// associations that share their gNB and application filters (see scopeOps), each from the empty state
